@@ -1,12 +1,16 @@
 package props
 
 import (
+	"bufio"
 	"bytes"
 	"fmt"
 	"io"
+	"os"
+	"path/filepath"
 	"reflect"
 	"sort"
 	"strings"
+	"testing/iotest"
 	"time"
 
 	astisub "github.com/asticode/go-astisub"
@@ -256,7 +260,7 @@ func c17Doc(c *fw.Ctx) (corpusDoc, string) {
 		// one text line of 4.5 KiB up to just under the scanner's 64 KiB limit, made of multi-byte characters: read
 		// boundaries fall inside a character while the scanner is still looking for the end of the line
 		unit := fw.Pick(c.R, []string{"é", "日本", "😀x", "ü—"})
-		target := fw.Pick(c.R, []int{c.R.Range(4500, 9500), c.R.Range(4500, 9500), c.R.Range(16500, 20000), c.R.Range(33000, 40000), c.R.Range(60000, 63000)})
+		target := fw.Pick(c.R, []int{c.R.Range(4500, 9500), c.R.Range(4500, 9500), c.R.Range(16500, 20000), c.R.Range(33000, 40000), c.R.Range(60000, 63000), c.R.Range(65000, 66500), c.R.Range(70000, 90000)}) // the last two are at and beyond what the scanner buffers: then every delivery fails alike
 		long := strings.Repeat(unit, target/len(unit)+1)
 		d := corpusDoc{Format: format, Ext: corpusExt[format], Read: corpusReader(format, astisub.TeletextOptions{}), Origin: "long multi-byte line"}
 		switch format {
@@ -458,6 +462,52 @@ func c17Run(c *fw.Ctx) fw.Outcome {
 		if o := check("65537-byte reads", cuts, true, nil); o != nil {
 			return *o
 		}
+	}
+	// the standard library's own reader types: which kind of reader hands over the bytes (one that knows its length,
+	// one that is buffered, a file, a chain) must not matter any more than the chunking does
+	tmp := filepath.Join(c.TmpDir(), "c17-doc")
+	os.WriteFile(tmp, d.Data, 0o644)
+	var file *os.File
+	defer func() {
+		if file != nil {
+			file.Close()
+		}
+		os.Remove(tmp)
+	}()
+	kinds := []struct {
+		name string
+		mk   func() io.Reader
+	}{
+		{"bytes.Reader", func() io.Reader { return bytes.NewReader(d.Data) }},
+		{"strings.Reader", func() io.Reader { return strings.NewReader(string(d.Data)) }},
+		{"bytes.Buffer", func() io.Reader { return bytes.NewBuffer(append([]byte(nil), d.Data...)) }},
+		{"bufio.Reader of 16 bytes", func() io.Reader { return bufio.NewReaderSize(newSched(d.Data, nil, false, nil), 16) }},
+		{"bufio.Reader of 4096 bytes", func() io.Reader { return bufio.NewReader(newSched(d.Data, nil, false, nil)) }},
+		{"bufio.Reader of 1 MiB", func() io.Reader { return bufio.NewReaderSize(bytes.NewReader(d.Data), 1<<20) }},
+		{"os.File", func() io.Reader { file, _ = os.Open(tmp); return file }},
+		{"io.MultiReader of two halves", func() io.Reader {
+			return io.MultiReader(bytes.NewReader(d.Data[:n/2]), strings.NewReader(string(d.Data[n/2:])))
+		}},
+		{"io.LimitReader", func() io.Reader {
+			return io.LimitReader(bytes.NewReader(append(append([]byte(nil), d.Data...), "tail"...)), int64(n))
+		}},
+		{"io.SectionReader", func() io.Reader { return io.NewSectionReader(bytes.NewReader(d.Data), 0, int64(n)) }},
+		{"iotest.HalfReader", func() io.Reader { return iotest.HalfReader(bytes.NewReader(d.Data)) }},
+		{"iotest.DataErrReader", func() io.Reader { return iotest.DataErrReader(bytes.NewReader(d.Data)) }},
+	}
+	if n <= 65536 {
+		kinds = append(kinds, struct {
+			name string
+			mk   func() io.Reader
+		}{"iotest.OneByteReader", func() io.Reader { return iotest.OneByteReader(bytes.NewReader(d.Data)) }})
+	}
+	for _, k := range kinds {
+		got := runRead(d, k.mk())
+		schedules++
+		if !sameResult(ref, got) {
+			return fw.Bad(key, fmt.Sprintf("%x", d.Data), "%s reader (%s document, %d bytes, %s): delivered all at once by a plain reader -> %s; delivered by %s -> %s", d.Format, variant, n, d.Origin, describeResult(ref), k.name, describeResult(got))
+		}
+		c.Count("standard_reader_kinds_tried", 1)
 	}
 	c.Count("schedules_run", int64(schedules))
 	c.Feature(fmt.Sprintf("%s %s ok=%v", d.Format, variant, !ref.failed))
